@@ -100,6 +100,12 @@ func (b verifL2BackendOf) Write(ctx context.Context, key []byte, v int) error {
 
 // verifL_Failover: n concurrent Gets (each on a solver-chosen key).
 func verifL_Failover(n int, generic bool, faults bool, sameKey bool, env bool) {
+	verifL_FailoverP(n, generic, faults, sameKey, env, false)
+}
+
+// prior: one complete Get (with its background build) runs before the concurrent burst, so that
+// whatever a finished Get leaves behind in the Failover is part of the initial state
+func verifL_FailoverP(n int, generic bool, faults bool, sameKey bool, env bool, prior bool) {
 	verifOption("deadlock")
 	st := &verifL2Store{errFault: errors.New("backend fault"), faultsOn: faults}
 	st.now = verifInt64("now")
@@ -113,7 +119,11 @@ func verifL_Failover(n int, generic bool, faults bool, sameKey bool, env bool) {
 		st.val[k], initVal[k] = 10+k, 10+k
 	}
 	// configuration flags are decided during the sequential setup (one composition per combination)
-	syncRead, syncUpdate, failHard, maxStaleSet := verifChoice("syncRead", 2) == 1, verifChoice("syncUpdate", 2) == 1, verifChoice("failHard", 2) == 1, verifChoice("maxStalenessSet", 2) == 1
+	syncRead, syncUpdate := verifChoice("syncRead", 2) == 1, verifChoice("syncUpdate", 2) == 1
+	failHard, maxStaleSet := false, false
+	if !prior { // the compositions with a prior Get fix these two (their state space is 16 times larger otherwise)
+		failHard, maxStaleSet = verifChoice("failHard", 2) == 1, verifChoice("maxStalenessSet", 2) == 1
+	}
 	maxStale := time.Duration(0)
 	if maxStaleSet {
 		maxStale = 100
@@ -187,6 +197,20 @@ func verifL_Failover(n int, generic bool, faults bool, sameKey bool, env bool) {
 		f := NewFailover(FailoverConfig{Backend: verifL2Backend{st}, SyncRead: syncRead, SyncUpdate: syncUpdate, FailHard: failHard,
 			MaxStaleness: maxStale, FailedUpdateTTL: -1}.Use)
 		keyLocks = func() int { return len(f.keyLocks) }
+		if prior {
+			pk, pok := verifChoice("priorKey", verifL2Keys), verifChoice("priorBuildOK", 2) == 1
+			verifBackgroundDone = func() bool { f.lock.Lock(); defer f.lock.Unlock(); return len(f.keyLocks) == 0 }
+			_, _ = f.Get(context.Background(), []byte(verifL2KeyNames[pk]), func(ctx context.Context) (interface{}, error) {
+				if pok {
+					return 99, nil
+				}
+				return nil, errors.New("prior build failure")
+			})
+			verifRunBackground()
+			for k := 0; k < verifL2Keys; k++ {
+				initState[k], initVal[k] = st.state[k], st.val[k]
+			}
+		}
 		for t := 0; t < n; t++ {
 			t := t
 			verifThread("get", func() {
@@ -220,6 +244,20 @@ func verifL_Failover(n int, generic bool, faults bool, sameKey bool, env bool) {
 		f := NewFailoverOf[int](FailoverConfigOf[int]{Backend: verifL2BackendOf{st}, SyncRead: syncRead, SyncUpdate: syncUpdate, FailHard: failHard,
 			MaxStaleness: maxStale, FailedUpdateTTL: -1}.Use)
 		keyLocks = func() int { return len(f.keyLocks) }
+		if prior {
+			pk, pok := verifChoice("priorKey", verifL2Keys), verifChoice("priorBuildOK", 2) == 1
+			verifBackgroundDone = func() bool { f.lock.Lock(); defer f.lock.Unlock(); return len(f.keyLocks) == 0 }
+			_, _ = f.Get(context.Background(), []byte(verifL2KeyNames[pk]), func(ctx context.Context) (int, error) {
+				if pok {
+					return 99, nil
+				}
+				return 0, errors.New("prior build failure")
+			})
+			verifRunBackground()
+			for k := 0; k < verifL2Keys; k++ {
+				initState[k], initVal[k] = st.state[k], st.val[k]
+			}
+		}
 		for t := 0; t < n; t++ {
 			t := t
 			verifThread("get", func() {
@@ -268,3 +306,5 @@ func verifL_Failover_2_env()      { verifL_Failover(2, false, false, false, true
 func verifL_FailoverOf_2_env()    { verifL_Failover(2, true, false, false, true) }
 func verifL_Failover_1_env()      { verifL_Failover(1, false, false, false, true) }
 func verifL_FailoverOf_1_env()    { verifL_Failover(1, true, false, false, true) }
+func verifL_Failover_2_prior()    { verifL_FailoverP(2, false, false, false, false, true) }
+func verifL_FailoverOf_2_prior()  { verifL_FailoverP(2, true, false, false, false, true) }
